@@ -781,6 +781,9 @@ def run(tier):
         check_stale_across_collection(rep, config)
         check_split_quantum(rep, config)
         check_foreign_roots(rep, config)
+    from . import c20_containers
+    c20_containers.v16(rep, rule="T-slide")        # the free-piece index is this B-tree
+    c20_containers.v11(rep, rule="T-branch-run")
     rep.floor("C10 table obligations", rep.obligations, 60)
     rep.assumptions.append("allocation, free, resize and collection histories are not analysed")
     return rep
